@@ -65,6 +65,13 @@ func (r *Rng) Chance(num, den int) bool { return r.Intn(den) < num }
 
 // Bytes returns n pseudo-random bytes.
 func (r *Rng) Bytes(n int) []byte {
+	if n == 0 {
+		// zero-length inputs come as nil half of the time, as an empty non-nil slice otherwise
+		if r.Bool() {
+			return nil
+		}
+		return []byte{}
+	}
 	out := make([]byte, n)
 	r.Fill(out)
 	return out
